@@ -1014,7 +1014,7 @@ func (r *Report) replayOnce(o *Obligation, dir string, log *strings.Builder, mod
 		}
 	}
 	sort.Strings(uniq)
-	file := filepath.Join(r.rc.outDir, "smt", r.rc.prop, "replay_"+sanitize(o.Name)+".smt2")
+	file := filepath.Join(r.rc.outDir, "smt", r.rc.prop, "replay_"+fileBase(o.Name)+".smt2")
 	var res *SolveResult
 	firstIter := false
 	if len(o.firstIter) > 0 {
@@ -1395,11 +1395,11 @@ func (r *Report) replayOnce(o *Obligation, dir string, log *strings.Builder, mod
 			fmt.Fprintf(log, "replay: cannot stub the callees: %v\n", err)
 			return "", false
 		}
-		rw := filepath.Join(dir, sanitize(o.Name)+"_modular_src.go")
+		rw := filepath.Join(dir, fileBase(o.Name)+"_modular_src.go")
 		os.WriteFile(rw, data, 0o644)
 		extra[file] = rw
 	}
-	gopath := filepath.Join(dir, sanitize(o.Name)+suffix+"_test.go")
+	gopath := filepath.Join(dir, fileBase(o.Name)+suffix+"_test.go")
 	os.WriteFile(gopath, src.Bytes(), 0o644)
 	out, failed := runReplayTestWith(r.rc.repo, gopath, testName, dir, isLemma, extra)
 	fmt.Fprintf(log, "replay test: %s\nreplay output:\n%s\n", gopath, indent(strings.TrimSpace(out), "  "))
